@@ -45,6 +45,7 @@ class ModelClient(Actor):
         self.last_up_ack = (0, 0)
         self.sent = []               # (time, id, labels, qtype) of every query sent
         self.dgrams = []             # recent query datagrams (for re-delivery)
+        self.final_dgrams = []
 
     # ------------------------------------------------------------------ io
     def on_datagram(self, src, dst, data):
@@ -260,11 +261,14 @@ class ModelClient(Actor):
             room = 255 - sum(len(l) + 1 for l in self.domain) - 5 - 8
             chunk_bytes = max(1, self.up.dec_len(room - room // 57 - 2))
         chunks = [data[i:i + chunk_bytes] for i in range(0, len(data), chunk_bytes)]
+        self.final_dgrams = []       # every datagram that carried the final chunk of this frame
         for fi, ch in enumerate(chunks):
             last = fi == len(chunks) - 1
             acked = False
             for _try in range(max_tries):
                 self.query(self.data_labels(self.up_seq, fi & 15, last, ch))
+                if last:
+                    self.final_dgrams.append(self.dgrams[-1])
                 end = self.kernel.now + wait_us
                 while self.kernel.now < end:
                     self.kernel.run(min(self.kernel.now + 20000, end))
@@ -297,6 +301,14 @@ class ModelClient(Actor):
 
     def raw_data(self, frame, userid=None):
         self.send_raw_dgram(proto.raw_frame(proto.RAW_DATA, self.userid if userid is None else userid, proto.deflate(frame)))
+
+    def raw_frames_received(self):
+        """[(time, src, cmd, userid, payload)] of raw-mode frames delivered to this address."""
+        out = []
+        for (t, src, d) in self.raw_in:
+            if len(d) >= 4:
+                out.append((t, src, d[3] & 0xF0, d[3] & 0x0F, d[4:]))
+        return out
 
     def raw_ping(self, userid=None):
         self.send_raw_dgram(proto.raw_frame(proto.RAW_PING, self.userid if userid is None else userid))
